@@ -330,7 +330,16 @@ def gen_prog(rng, c16_weight=0, nmeth=None):
         p.fields.append((rng.choice(["Size%d", "size%d"]) % k, rng.chance(1, 3)))
     n = nmeth if nmeth is not None else 1 + rng.below(8)
     for i in range(n):
-        p.methods.append(gen_method(rng, i, c16_weight))
+        m = gen_method(rng, i, c16_weight)
+        # a method named like a local of the method before it (any letter case): the name terminal of the next
+        # method must not count as a mention of the previous method's local
+        if p.methods and p.methods[-1].locals and m.name.upper() not in [x.upper() for x in INHERITED_NAMES] and rng.chance(1, 6):
+            own = {x.name.upper() for x in m.locals} | {x.upper() for x in getattr(m, "params", [])}
+            cand = [v for v in p.methods[-1].locals if v.name.upper() not in own]
+            if cand:
+                v = rng.choice(cand)
+                m.name = v.name[0].upper() + v.name[1:] if rng.chance(1, 2) else swapcase_some(v.name, rng)
+        p.methods.append(m)
     link_cross_method(p)
     return p
 
